@@ -77,6 +77,13 @@ def run_item(item):
         df = popgen.branch_reach(rng, df, d, params)
     if item["k"] % 2:
         df = df.iloc[rng.permutation(len(df))].reset_index(drop=True)
+    if item["k"] % 3 == 1 and not item.get("domain"):
+        # person identifiers as real data sets carry them: 16-digit composite keys.  Household ids stay small: group ids are
+        # used as dense array indices (hh_id * 100 + k), so household keys >= 10^8 ask for > 10^10 floats - a resource limit
+        # stated as an assumption in DESIGN.md section 3, not one of the failures C08 is about
+        pids = df["p_id"].tolist()
+        df = popgen.relabel(df, {int(p_): 10 ** 15 + 7919 * int(p_) + 3 for p_ in pids}, None)
+        corner = f"{corner}+long_ids"
     res = dict(date=item["date"], k=item["k"], pop=popgen.digest(df), persons=len(df), runs=0, violations=[],
                roots=[], new_lines=[], param_reads=[], fault_injections=0, fault_silent=[], active_rule_lines=None)
 
